@@ -1445,3 +1445,30 @@ def model_fraction(m, x):
     if _t(x) is SymInt:
         return Fraction(m.eval(x.e, model_completion=True).as_long())
     return Fraction(x)
+
+
+def exactify(e, _memo=None):
+    """replace the abstraction functions mul / div by the real product / quotient (used to search for a genuine
+    model after a counterexample was found under the product abstraction)"""
+    memo = {} if _memo is None else _memo
+
+    def go(x):
+        i = x.get_id()
+        if i in memo:
+            return memo[i]
+        if z3.is_app(x) and x.num_args() > 0:
+            ch = [go(c) for c in x.children()]
+            d = x.decl()
+            if d.eq(_MUL):
+                r = ch[0] * ch[1]
+            elif d.eq(_DIV):
+                r = ch[0] / ch[1]
+            else:
+                r = d(*ch)
+        elif z3.is_quantifier(x):
+            r = x
+        else:
+            r = x
+        memo[i] = r
+        return r
+    return go(e)
